@@ -336,4 +336,14 @@ theorem image_length (pos : Int) (bl : List Block) (t : Option Int) (ho : Ordere
     omega
 
 
+theorem headerStep_fresh {g : H} {e : Entry} {rest : List Entry} (hg : g.entries = e :: rest)
+    (h1 : e.hst = .ok) {bl : List Block} (hbl : e.evs = bl.map evOfBlock) (ht : e.term.st = .eof) :
+    Fresh (headerStep g).2 bl e.term.off := by
+  unfold headerStep headerRest readHeader
+  simp only [hg, h1]
+  refine ⟨rfl, rfl, rfl, rfl, hbl, ?_⟩
+  show e.term = _
+  cases he : e.term with
+  | mk st off => simp [he] at ht; simp [ht]
+
 end LA.RD
